@@ -472,6 +472,28 @@ theorem C16_bare_id_is_flat_filter_wired (t : List Desc) (o : SubsetOut) (w : Wi
   cases hw'
   exact bare_flat o tree id hits vs (by rw [hi, hn]) hord h hv
 
+/-- "returns": on a well-shaped tree (`repsOKList`) the bare-id query of an ordinary element does not fail — neither
+    the search nor the value pass — and its flattened result is the flat filter -/
+theorem C16_bare_id_returns_flat_filter (o : SubsetOut) (tree : List Node) (id : List Char)
+    (hidx : idxList tree = List.range o.vals.length) (hord : Spec.ordinaryList o.descs id tree = true)
+    (hshape : repsOKList o tree = true) :
+    ∃ hits vs, processOne o.descs tree [bare id] = .ok hits ∧ valuesOf o.vals hits = .ok vs ∧
+      flattenQV vs = Spec.flatFilter o id :=
+  bare_flat_total o tree id hidx hord hshape
+
+/-- for the tree the wiring pass builds, the only hypotheses left are: the pass consumed the whole flat list, and
+    the element is ordinary (both decidable) -/
+theorem C16_bare_id_returns_flat_filter_wired (t : List Desc) (o : SubsetOut) (w : Wired) (tree : List Node)
+    (id : List Char) (hw : wireRaw t o = .ok w) (hn : w.st.next = o.vals.length) (ht : w.tree = .ok tree)
+    (hord : Spec.ordinaryList o.descs id tree = true) :
+    ∃ hits vs, processOne o.descs tree [bare id] = .ok hits ∧ valuesOf o.vals hits = .ok vs ∧
+      flattenQV vs = Spec.flatFilter o id := by
+  have hwire : wire t o = .ok tree := by unfold wire; rw [hw]; exact ht
+  obtain ⟨w', hw', hi⟩ := C16_wire_indices_consecutive t o tree hwire
+  rw [hw] at hw'
+  cases hw'
+  exact bare_flat_total o tree id (by rw [hi, hn]) hord (C16_wire_shape t o tree hwire)
+
 theorem C16_mapIdx_mem {β : Type} (f : Nat → CM β) : ∀ (l : List Nat) (rs : List β), mapIdx f l = .ok rs →
     ∀ q ∈ rs, ∃ i ∈ l, f i = .ok q
   | [], rs, h, q, hq => by simp only [mapIdx] at h; cases h; simp at hq
